@@ -33,9 +33,14 @@ from .front import SelectorError
 
 DEEP, BRANCH, SHALLOW, SHARED = 3, 2, 1, 0
 LVL = {3: 'DEEP', 2: 'BRANCH-DEEP', 1: 'SHALLOW', 0: 'SHARED'}
-TOP, BR, ANY = 0, 1, 2
-DEPTH = {0: 'top', 1: 'branches', 2: 'deep'}
-NEED = {TOP: SHALLOW, BR: BRANCH, ANY: DEEP}
+TOP, BR, ANY, CH = 0, 1, 2, 3            # CH: the direct elements of the parameter (TOP < CH < ANY, TOP < BR < ANY)
+DEPTH = {0: 'top', 1: 'branches', 2: 'deep', 3: 'elements'}
+NEED = {TOP: SHALLOW, BR: BRANCH, ANY: DEEP, CH: DEEP}
+
+
+def covers(m, d):
+    """does a modifies depth m allow a write at depth d"""
+    return m == ANY or m == d or d == TOP
 EXT = '<global>'
 MANY = 2
 
@@ -70,11 +75,11 @@ class AV:
     """abstract value.  org: origins of the shared parts (of the value itself when lvl == SHARED); cells: alias class of a fresh
     object (every local that may alias, contain or be contained in it shares a cell id); tok: one-shot iterator token;
     cls: ClassInfo when the class of the object is known (self, self.copy(), type(self)(...)); btypes: what BRANCH is relative to"""
-    __slots__ = ('lvl', 'org', 'cells', 'tok', 'cls', 'btypes', 'const', 'func', 'elem')
+    __slots__ = ('lvl', 'org', 'cells', 'tok', 'cls', 'btypes', 'const', 'func', 'elem', 'me')
 
-    def __init__(self, lvl, org=frozenset(), cells=frozenset(), tok=None, cls=None, btypes=None, const=None, func=None, elem=None):
-        self.lvl, self.org, self.cells, self.tok, self.cls, self.btypes, self.const, self.func, self.elem = \
-            lvl, frozenset(org), frozenset(cells), tok, cls, btypes, const, func, elem
+    def __init__(self, lvl, org=frozenset(), cells=frozenset(), tok=None, cls=None, btypes=None, const=None, func=None, elem=None, me=None):
+        self.lvl, self.org, self.cells, self.tok, self.cls, self.btypes, self.const, self.func, self.elem, self.me = \
+            lvl, frozenset(org), frozenset(cells), tok, cls, btypes, const, func, elem, me          # me: the creation site instance (aliases share it)
 
     def but(self, **kw):
         d = {k: getattr(self, k) for k in self.__slots__}
@@ -83,7 +88,7 @@ class AV:
 
     def key(self):
         return (self.lvl, self.org, self.cells, self.tok, self.cls.key if self.cls else None, self.btypes, self.const,
-                id(self.func) if self.func is not None else None, self.elem.key() if self.elem is not None else None)
+                id(self.func) if self.func is not None else None, self.elem.key() if self.elem is not None else None, self.me)
 
     def __repr__(self):
         o = ','.join('%s:%s' % (p, DEPTH[d]) for p, d in sorted(self.org))
@@ -96,7 +101,7 @@ GLOBAL = AV(SHARED, [(EXT, ANY)])
 
 
 def deepen(org, to=ANY):
-    return frozenset((p, max(d, to)) for p, d in org)
+    return frozenset((p, ANY) for p, d in org)
 
 
 def join(a, b):
@@ -109,13 +114,16 @@ def join(a, b):
     if lvl == BRANCH and bt is None:
         bt = a.btypes or b.btypes
     el = None
-    if a.elem is not None and b.elem is not None:
-        el = join(a.elem, b.elem)
+    ea = a.elem if a.elem is not None else (AV(DEEP, (), a.cells) if a.lvl == DEEP else None)
+    eb = b.elem if b.elem is not None else (AV(DEEP, (), b.cells) if b.lvl == DEEP else None)
+    if ea is not None and eb is not None and (a.elem is not None or b.elem is not None):
+        el = join(ea, eb)
     fn = a.func if a.func is b.func else None
     if fn is None and a.func is not None and b.func is not None and a.func[0] in _CTORS and b.func[0] in _CTORS:
         fn = ('ctor', '?')
     return AV(lvl, a.org | b.org, a.cells | b.cells, a.tok if a.tok == b.tok else (a.tok or b.tok),
-              a.cls if (a.cls is b.cls) else None, bt, a.const if a.const == b.const else None, fn, el)
+              a.cls if (a.cls is b.cls) else None, bt, a.const if a.const == b.const else None, fn, el,
+              a.me if a.me == b.me else None)
 
 
 def child(a, branch=False):
@@ -129,8 +137,8 @@ def child(a, branch=False):
     if a.lvl >= SHALLOW:
         return AV(SHARED, deepen(a.org)) if a.org else AV(DEEP, (), a.cells)
     if branch:
-        return AV(SHARED, frozenset((p, BR if d <= BR else ANY) for p, d in a.org))
-    return AV(SHARED, deepen(a.org))
+        return AV(SHARED, frozenset((p, BR if d in (TOP, BR) else ANY) for p, d in a.org))
+    return AV(SHARED, frozenset((p, CH if d == TOP else ANY) for p, d in a.org))
 
 
 def storable(v):
@@ -143,7 +151,7 @@ class ClassInfo:
     def __init__(self, mi, node):
         self.mi, self.node, self.name = mi, node, node.name
         self.key = '%s:%s' % (mi.name, node.name)
-        self.methods, self.props = {}, set()
+        self.methods, self.props, self.attrs = {}, set(), {}
         for n in node.body:
             if isinstance(n, (ast.FunctionDef, ast.AsyncFunctionDef)):
                 self.methods[n.name] = n
@@ -152,6 +160,8 @@ class ClassInfo:
             elif isinstance(n, ast.Assign) and len(n.targets) == 1 and isinstance(n.targets[0], ast.Name) \
                     and isinstance(n.value, ast.Name) and n.value.id in self.methods:
                 self.methods[n.targets[0].id] = self.methods[n.value.id]          # __radd__ = __add__
+            elif isinstance(n, ast.Assign) and len(n.targets) == 1 and isinstance(n.targets[0], ast.Name) and isinstance(n.value, ast.Name):
+                self.attrs[n.targets[0].id] = n.value.id                         # _dict = Dict
         self.bases = [ast.unparse(b) for b in node.bases]
 
 
@@ -269,13 +279,13 @@ class Summary:
         self.constructors = set()  # parameters that must be classes / constructors returning a new, empty object
 
     def key(self):
-        return (tuple(sorted(self.mut)), len(self.ext), tuple(sorted(self.captures)), self.result.key(), tuple(sorted(self.iters.items())),
+        return (tuple(sorted(self.mut)), bool(self.ext), tuple(sorted(self.captures)), self.result.key(), tuple(sorted(self.iters.items())),
                 self.brparam, self.is_gen)
 
 
 def parse_modifies(spec):
     """{} | None | 'top(self)' | ['branches(tree)', 'deep(x)'] | {'tree': 'branches'}  ->  {param: depth}"""
-    names = {'top': TOP, 'branches': BR, 'branch': BR, 'deep': ANY}
+    names = {'top': TOP, 'branches': BR, 'branch': BR, 'deep': ANY, 'elements': CH}
     if not spec:
         return {}
     if isinstance(spec, dict):
@@ -367,7 +377,8 @@ def fresh(lvl, org=(), cells=frozenset(), **kw):
     org = frozenset(org)
     if lvl < DEEP and not org:
         lvl = DEEP                                # nothing shared can be reached
-    return AV(lvl, org, new_cell() | cells, **kw)
+    c = new_cell()
+    return AV(lvl, org, c | cells, me=min(c), **kw)
 
 
 def _names(e):
@@ -384,6 +395,24 @@ def _simple(e):
         return _simple(e.operand)
     if isinstance(e, ast.Subscript):
         return _simple(e.value) and not isinstance(e.slice, ast.Slice) and _simple(e.slice)
+    return False
+
+
+def _numeric_expr(e):
+    """syntactically a number: x += <this> can only act on a number (or a numpy array, which the report lists as an assumption)"""
+    if isinstance(e, ast.Constant):
+        return isinstance(e.value, (int, float, complex)) and not isinstance(e.value, bool)
+    if isinstance(e, ast.UnaryOp) and isinstance(e.op, (ast.USub, ast.UAdd)):
+        return _numeric_expr(e.operand)
+    if isinstance(e, ast.BinOp):
+        if isinstance(e.op, (ast.FloorDiv, ast.Div, ast.Pow)):
+            return True
+        if isinstance(e.op, (ast.Add, ast.Sub, ast.Mod)):
+            return _numeric_expr(e.left) or _numeric_expr(e.right)
+        if isinstance(e.op, ast.Mult):
+            return _numeric_expr(e.left) and _numeric_expr(e.right)
+    if isinstance(e, ast.Call) and isinstance(e.func, ast.Name) and e.func.id in ('int', 'float', 'len', 'abs', 'round'):
+        return True
     return False
 
 
@@ -404,7 +433,7 @@ class Analyzer:
             c = dict(c)
             c['modifies'] = parse_modifies(c.get('modifies'))
             self.contracts[k] = c
-        self.memo, self.inprog, self.consulted = {}, {}, []
+        self.table, self.order, self.changed, self.depth = {}, [], False, 0
         self.used_contracts = set()
 
     # ------------------------------------------------------------------ locating functions
@@ -443,40 +472,42 @@ class Analyzer:
         return s
 
     def summary(self, mi, qual, node, ci, consts=()):
-        key = (mi.name, qual, tuple(sorted(consts, key=repr)))
+        """current approximation of the callee's summary.  A key met for the first time is analysed at once (depth first, with
+        the bottom summary standing in for it while it is in progress); solve() then re-analyses every discovered function
+        against the table until nothing changes."""
         ckey = '%s:%s' % (mi.name, qual)
         if ckey in self.contracts:
             return self.contract_summary(ckey, node)
-        if key in self.memo:
-            return self.memo[key]
-        if key in self.inprog:
-            for c in self.consulted:
-                c.add(key)
-            return self.inprog[key]
-        if len(self.inprog) > 40:
-            s = Summary()
-            s.assumed.add('analysis depth exceeded at %s' % ckey)
-            return s
-        self.inprog[key] = Summary()
-        mine = set()
-        self.consulted.append(mine)
+        key = (mi.name, qual, tuple(sorted(consts, key=repr)))
+        if key in self.table:
+            return self.table[key]
+        self.table[key] = Summary()
+        self.order.append((key, mi, qual, node, ci, dict(consts)))
+        self.changed = True
+        if self.depth > 60:
+            return self.table[key]
+        self.depth += 1
         try:
-            s = None
-            for _ in range(8):
-                mine.discard(key)
-                fa = FA(self, mi, qual, node, ci, dict(consts))
-                fa.run()
-                s = fa.summary
-                if key not in mine or s.key() == self.inprog[key].key():
-                    break
-                self.inprog[key] = s
+            fa = FA(self, mi, qual, node, ci, dict(consts))
+            fa.run()
         finally:
-            self.consulted.pop()
-            del self.inprog[key]
-        mine.discard(key)
-        if not (mine & set(self.inprog)):
-            self.memo[key] = s
-        return s
+            self.depth -= 1
+        self.table[key] = fa.summary
+        return fa.summary
+
+    def solve(self, max_passes=12):
+        """global fixpoint over all discovered functions"""
+        for _ in range(max_passes):
+            self.changed = False
+            for key, mi, qual, node, ci, consts in list(self.order):
+                fa = FA(self, mi, qual, node, ci, consts)
+                fa.run()
+                if fa.summary.key() != self.table[key].key():
+                    self.table[key] = fa.summary
+                    self.changed = True
+            if not self.changed:
+                return True
+        return False
 
 
 class FA:
@@ -537,7 +568,7 @@ class FA:
                 bt = ('param', bt[0])
             else:
                 bt, res = None, res.but(lvl=SHALLOW)
-        elem = res.elem.but(cells=frozenset(), tok=None, func=None, elem=None) if res.elem is not None else None
+        elem = res.elem.but(cells=frozenset(), tok=None, func=None, elem=None, me=None) if res.elem is not None else None
         const = res.const if (res.const and res.const[1] in (True, False, None)) else None
         self.summary.result = AV(res.lvl, res.org, (), None, res.cls, bt if res.lvl == BRANCH else None, const, None, elem)
         for s in self.exit_states:
@@ -573,12 +604,13 @@ class FA:
     def effect(self, p, d, desc):
         """record that an object at depth d of parameter p is mutated; returns whether the function's modifies clause allows it"""
         if p == EXT:
-            self.summary.ext.append(desc)
+            if desc not in self.summary.ext and len(self.summary.ext) < 12:
+                self.summary.ext.append(desc)
             return False
         self.summary.mut.setdefault((p, d), desc)
         if self.modifies is None:
             return True
-        return p in self.modifies and d <= self.modifies[p]
+        return p in self.modifies and covers(self.modifies[p], d)
 
     def mutate(self, st, av, node, kindstr, what):
         """a direct mutation of the object av (its top)"""
@@ -598,11 +630,27 @@ class FA:
             self.site(kindstr, node, False, '%s: target is SHARED and may be %s; the modifies clause allows %s' % (
                 what, ' / '.join(bad), show_modifies(self.modifies or {})))
 
-    def downgrade(self, st, cells, lvl, org, keep_bt=None):
+    def downgrade(self, st, cont, lvl, org, keep_bt=None, v=None):
+        """a non-fresh value v has been stored into the fresh object cont: every local that may alias cont, contain it or be contained
+        in it is lowered; only possible aliases (same creation instance, or unknown) take v as a new element"""
+        vv = v.but(tok=None, const=None, func=None) if v is not None else None
+
+        def lower(a, depth=0):
+            if a is None or not (a.cells & cont.cells) or depth > 4:
+                return a
+            nl = min(a.lvl, lvl)
+            alias = a.me is None or cont.me is None or a.me == cont.me
+            if alias:
+                el = join(a.elem, vv) if (a.elem is not None and vv is not None) else None
+            else:
+                el = lower(a.elem, depth + 1)
+            return a.but(lvl=nl, org=a.org | org, btypes=(a.btypes or keep_bt) if nl == BRANCH else None, elem=el, const=None)
         for n, a in list(st.env.items()):
-            if a.cells & cells:
-                nl = min(a.lvl, lvl)
-                st.env[n] = a.but(lvl=nl, org=a.org | org, btypes=(a.btypes or keep_bt) if nl == BRANCH else None, elem=None, const=None)
+            if a.cells & cont.cells:
+                st.env[n] = lower(a)
+        for k, (a, ns) in list(st.known.items()):
+            if a.cells & cont.cells:
+                st.known[k] = (lower(a), ns)
 
     def link(self, st, c1, c2):
         if not c1 or not c2:
@@ -626,14 +674,14 @@ class FA:
                     to = BRANCH
                 else:
                     to = SHALLOW
-                self.downgrade(st, cont.cells, to, deepen(v.org), keep_bt=v.btypes or cont.btypes)
+                self.downgrade(st, cont, to, deepen(v.org), keep_bt=v.btypes or cont.btypes, v=v)
             if v.cells:
                 self.link(st, cont.cells, v.cells)
         else:
             for p, d in cont.org:
                 if p == EXT:
                     continue
-                kind = 'leaf' if (self.summary.brparam and d <= BR) else 'any'
+                kind = 'leaf' if (self.summary.brparam and d in (TOP, BR)) else 'any'
                 for q, e in v.org:
                     if q != EXT and q != p:
                         self.summary.captures.add((q, p, kind))
@@ -697,7 +745,8 @@ class FA:
             cells |= v.cells
             ve = v.but(tok=None, const=None, func=None)
             el = ve if el is None else join(el, ve)
-        return AV(lvl, org, new_cell() | cells, elem=el)
+        c = new_cell()
+        return AV(lvl, org, c | cells, elem=el if el is not None else IMM, me=min(c))
 
     def e_Tuple(self, st, e):
         vs = []
@@ -733,7 +782,7 @@ class FA:
             for n in ast.walk(g.target):
                 if isinstance(n, ast.Name) and n.id not in saved:
                     saved[n.id] = st.env.get(n.id)
-            self.bind(st, g.target, child(it), None)
+            self.bind(st, g.target, self.iter_elem(st, it, g.iter), None)
             for c in g.ifs:
                 self.ev(st, c)
         for x in extra:
@@ -856,6 +905,12 @@ class FA:
                 if e.attr in hit[0].props:
                     return self.call_method(st, e, hit, b, ([], [], [], {}, {}, []), e.attr, recv_expr=e.value)
                 return AV(DEEP, func=('method', hit, b))
+            for c in self.ix.mro(b.cls):
+                if isinstance(c, ClassInfo) and e.attr in c.attrs:
+                    r = self.ix.resolve(c.mi, c.attrs[e.attr])
+                    if r is not None and r[0] in ('func', 'class'):
+                        return AV(DEEP, func=r)
+                    break
         return child(b)
 
     def e_Subscript(self, st, e):
@@ -909,8 +964,24 @@ class FA:
                 for v in test.values:
                     self.learn(st, v, truth)
             return
+        if isinstance(test, ast.Compare) and len(test.ops) == 1 and isinstance(test.ops[0], (ast.Eq, ast.Is)) and truth:
+            l, r = test.left, test.comparators[0]
+            if all(isinstance(x, ast.Call) and isinstance(x.func, ast.Name) and x.func.id == 'type' and len(x.args) == 1 for x in (l, r)):
+                for x, y in ((l.args[0], r.args[0]), (r.args[0], l.args[0])):
+                    c = self.ev(st, y).cls
+                    if c is not None and _simple(x):
+                        if isinstance(x, ast.Name) and x.id in st.env:
+                            st.env[x.id] = st.env[x.id].but(cls=c)
+                        else:
+                            st.known[ast.unparse(x)] = (self.ev(st, x).but(cls=c), _names(x))
+                return
         if isinstance(test, ast.Call) and isinstance(test.func, ast.Name) and test.func.id == 'isinstance' and len(test.args) == 2 and truth:
             x, t = test.args
+            if isinstance(t, ast.Name) and isinstance(x, ast.Name) and x.id in st.env and st.env[x.id].cls is None:
+                r = self.ix.resolve(self.mi, t.id)
+                if r and r[0] == 'class':
+                    st.env[x.id] = st.env[x.id].but(cls=r[1])
+                    return
             if isinstance(t, ast.Name) and t.id in self.params and st.ver.get(t.id, 0) == 0 and _simple(x) \
                     and isinstance(x, (ast.Subscript, ast.Attribute)) and self.summary.brparam in (None, t.id):
                 base = self.ev(st, x.value)
@@ -969,9 +1040,12 @@ class FA:
                 hit = self.ix.lookup(recv.cls, f.attr)
                 if hit and hit[0] != 'builtin':
                     return self.call_method(st, e, hit, recv, A, f.attr, recv_expr=f.value)
+                for c in self.ix.mro(recv.cls):
+                    if isinstance(c, ClassInfo) and f.attr in c.attrs:
+                        return self.call_value(st, e, self.e_Attribute(st, f), A, ast.unparse(f))
                 if hit:
                     return self.builtin_method(st, e, recv, f.attr, A, f.value)
-                return self.call_value(st, e, child(recv), A, ast.unparse(f))        # a callable stored as an attribute
+                return self.call_value(st, e, self.e_Attribute(st, f), A, ast.unparse(f))        # a callable stored as an attribute
             return self.builtin_method(st, e, recv, f.attr, A, f.value)
         fv = self.ev(st, f)
         return self.call_value(st, e, fv, A, ast.unparse(f)[:40])
@@ -1084,7 +1158,8 @@ class FA:
                 lvl = SHALLOW
             org |= deepen(v.org)
             cells |= v.cells
-        obj = AV(lvl if org or lvl == DEEP else DEEP, org, new_cell() | cells, cls=ci, elem=child(pos[0]) if (len(allv) == 1 and pos and lvl == SHALLOW) else None)
+        nc = new_cell()
+        obj = AV(lvl if org or lvl == DEEP else DEEP, org, nc | cells, cls=ci, elem=child(pos[0]) if (len(allv) == 1 and pos and lvl == SHALLOW) else None, me=min(nc))
         hit = self.ix.lookup(ci, '__init__')
         if hit and hit[0] != 'builtin':
             self.call_method(st, e, hit, obj, A, '__init__')
@@ -1147,8 +1222,15 @@ class FA:
             return fresh(SHALLOW, deepen(v.org), v.cells if v.lvl >= SHALLOW else frozenset(), cls=v.cls, elem=v.elem)
         if key in FRESH_CONTAINER_FUNCS:
             vs = [child(v) for v in pos[:1]] if key in ('sorted',) else [child(v) for v in pos + star] + list(kw.values()) + dstar
-            if key in ('sum', 'reduce', 'functools.reduce'):
-                vs = [child(child(v)) for v in pos[:1] if v.func is None] + [child(v) for v in pos if v.func is None] + pos[1:]
+            if key == 'sum':
+                vs = [child(child(v)) for v in pos[:1]] + [child(v) for v in pos[1:]] + [child(v) for v in kw.values()]
+            if key in ('reduce', 'functools.reduce'):
+                r = None
+                for v in [child(v) for v in pos[1:2]] + pos[2:]:
+                    v = v.but(tok=None, const=None, func=None, elem=None)
+                    for c in (v, child(v)):
+                        r = c if r is None else join(r, c)
+                return r if r is not None else GLOBAL
             if key == 'dict' and len(pos) == 1 and pos[0].elem is not None and pos[0].tok is not None:
                 vs = [child(child(pos[0]))]                       # dict(zip(keys, values))
             r = self._container(st, vs)
@@ -1289,6 +1371,9 @@ class FA:
                 bt_ok = av.lvl == DEEP or (av.btypes is not None and isinstance(tx, ast.Name) and av.btypes == (tx.id, st.ver.get(tx.id, 0)))
             what = 'callee %s modifies %s(%s)' % (callee, DEPTH[d], q)
             atxt = ast.unparse(aexpr[q]) if aexpr.get(q) is not None else q
+            if d == CH and av.lvl >= SHALLOW and av.elem is not None and av.elem.lvl >= SHALLOW:
+                notes.append('%s; the elements of actual `%s` are %s' % (what, atxt, LVL[av.elem.lvl]))
+                continue
             if av.lvl >= need and (d != BR or bt_ok):
                 notes.append('%s; actual `%s` is %s' % (what, atxt, LVL[av.lvl]))
                 continue
@@ -1297,10 +1382,12 @@ class FA:
                 for p, e0 in av.org:
                     if d == TOP:
                         targets.add((p, e0))
+                    elif d == CH:
+                        targets.add((p, CH if e0 == TOP else ANY))
                     elif d == BR:
                         tx = aexpr.get(S.brparam)
                         same = isinstance(tx, ast.Name) and tx.id in self.params and st.ver.get(tx.id, 0) == 0 and self.summary.brparam in (None, tx.id)
-                        if same and e0 <= BR:
+                        if same and e0 in (TOP, BR):
                             self.summary.brparam = tx.id
                             targets.add((p, BR))
                         else:
@@ -1386,7 +1473,8 @@ class FA:
             el = None
             if r.elem is not None:
                 el = self._map_shared(r.elem, actual)
-            return AV(lvl, org, new_cell() | cells, tok=tok, cls=r.cls, btypes=bt, const=r.const, elem=el)
+            nc = new_cell()
+            return AV(lvl, org, nc | cells, tok=tok, cls=r.cls, btypes=bt, const=r.const, elem=el, me=min(nc))
         out = self._map_shared(r, actual)
         return out.but(tok=tok or out.tok, const=r.const)
 
@@ -1486,6 +1574,9 @@ class FA:
     def s_AugAssign(self, st, s):
         v = self.ev(st, s.value)
         numeric = v.const is not None and isinstance(v.const[1], (int, float, str, bool))
+        if not numeric and _numeric_expr(s.value):
+            numeric = True
+            self.assume('an augmented assignment with a numeric right-hand side acts on a number, not on a numpy array')
         if isinstance(s.target, ast.Name):
             cur = st.env.get(s.target.id)
             if cur is None:
@@ -1597,10 +1688,19 @@ class FA:
             if st.key() == before:
                 break
 
+    def iter_elem(self, st, it, node):
+        """element of iterating `it`; a receiver whose class defines __iter__ in the repo yields what that generator yields"""
+        if it.cls is not None and it.tok is None:
+            hit = self.ix.lookup(it.cls, '__iter__')
+            if hit and hit[0] != 'builtin':
+                r = self.call_method(st, node, hit, it, ([], [], [], {}, {}, []), '__iter__')
+                return child(r).but(tok=None)
+        return child(it).but(tok=None)
+
     def s_For(self, st, s):
         it = self.ev(st, s.iter)
         self.consume(st, it, s.iter)
-        el = child(it).but(tok=None)
+        el = self.iter_elem(st, it, s.iter)
         promo = self._branch_copy_idiom(st, s)
 
         def body(b):
@@ -1647,7 +1747,8 @@ class FA:
             self.ev(b, s.test)
             self.learn(b, s.test, True)
             self.block(b, s.body)
-        self.ev(st, s.test)
+        if self.truth(st, s.test, self.ev(st, s.test)) is False:
+            return
         self.loop(st, body)
         if s.orelse:
             self.block(st, s.orelse)
@@ -1732,9 +1833,15 @@ def check_function(an, modname, qual, modifies=None, consts=None, label=None, re
     saved = an.contracts.pop(ckey, None)          # recursive calls inside the body use the declared contract: keep it
     if saved is not None:
         an.contracts[ckey] = saved
+    fa.run()                                       # discovers the callees
+    stable = an.solve()
+    fa = FA(an, mi, qual, node, ci, cs, modifies=modifies, label=label)
+    fa.constructors = set(con.get('constructors', ()))
     fa.run()
     out = fa.results()
     where = mi.mod.lines(node)
+    if not stable:
+        out.append(Res('%s.frame.summaries_stable' % label, False, 'the callee summaries did not stabilise in 12 passes', where, kind='undecided'))
     bad = [r for r in out if not r.ok and r.kind == 'frame']
     eff = ', '.join('%s(%s)' % (DEPTH[d], p) for (p, d) in sorted(fa.summary.mut)) or 'none'
     out.append(Res('%s.frame.body_respects_modifies' % label, not bad,
@@ -1757,11 +1864,11 @@ def check_function(an, modname, qual, modifies=None, consts=None, label=None, re
     return out
 
 
-def frame_report(funcs, contracts=None, analyzer=None, protocol=True):
+def frame_report(funcs, contracts=None, analyzer=None, protocol=True, never_types=()):
     """funcs: list of (module, qualified function name, modifies spec) -> list of result dicts (name, ok, detail, where, kind, assumed).
     modifies spec: {} / None / 'top(self)' / ['branches(tree)'] / {'self': 'top'}.  With protocol=True the implicit protocol methods
     (__getitem__, __len__, __iter__, __contains__, __eq__, __getattr__) of every class involved are checked to be effect-free as well."""
-    an = analyzer or Analyzer(contracts)
+    an = analyzer or Analyzer(contracts, never_types=never_types)
     out, classes = [], {}
     for modname, qual, spec in funcs:
         try:
